@@ -954,7 +954,8 @@ class ProductSpaceElement(LinearSpaceElement):
             return self.space[indices].element(out_parts)
         elif isinstance(indices, tuple):
             if len(indices) == 0:
-                return ProductSpace().element()
+                # The empty index selects everything, as for `self.space[()]`
+                return self
             elif len(indices) == 1:
                 # Tuple with a single entry - we just unpack and delegate
                 return self[indices[0]]
